@@ -138,6 +138,17 @@ func TestVerifNodex(t *testing.T) {
 		"in-memory ILogDB: a successful SaveRaftState is durable (the real stores' crash atomicity is C10)",
 		"snapshot worker pool emulated one job at a time with the real ssWorker.handle",
 	}
+	// monitors that may raise an alarm in this check: its own property's, plus
+	// (C01) those of the safety properties linearizability rests on
+	nxMonitorTags = map[string]map[string]bool{
+		"c01": {"C01": true, "C02": true, "C03": true, "C04": true, "C11": true},
+		"c04": {"C04": true}, "c11": {"C11": true}, "c12": {"C12": true}, "c17": {"C17": true},
+	}[part]
+	defer func() {
+		for k, v := range nxSuppressed {
+			res.Extra["monitor_failures_of_other_properties:"+k] = v
+		}
+	}()
 	newC := func(cfg *nxCfg) *nxCluster {
 		c := newNxCluster(cfg)
 		if part == "c01" {
